@@ -28,6 +28,7 @@ type Tpl struct {
 }
 
 type TplEngine struct {
+	EachOverMap []string // `{{#each m}}` blocks whose operand is a Go map
 	Name       string
 	PkgRel     string
 	Routes     *Tpl
@@ -555,6 +556,15 @@ func (tc *tchecker) walkBlock(t *Tpl, n *hast.BlockStatement, sc *tscope) {
 		inner := sc
 		if len(args) == 1 && args[0].ok && args[0].typ != nil {
 			et := elemType(args[0].typ)
+			if _, isMap := args[0].typ.Underlying().(*types.Map); isMap {
+				// raymond ranges over a Go map with reflect's MapKeys: the order of what is rendered
+				// changes from run to run
+				pth := fmt.Sprint(n.Expression.Params[0])
+				if pe, ok := n.Expression.Params[0].(*hast.PathExpression); ok {
+					pth = pe.Original
+				}
+				tc.eng.EachOverMap = append(tc.eng.EachOverMap, fmt.Sprintf("%s:%d: {{#each %s}} iterates a Go map (%s)", t.File, n.Line, pth, types.TypeString(args[0].typ, nil)))
+			}
 			if et == nil {
 				tc.problem(t, n.Line, "{{#each %s}} iterates a non-iterable %s", n.Expression.Params[0], types.TypeString(args[0].typ, nil))
 			} else {
